@@ -529,7 +529,10 @@ example : Gen.toStrCode x0 (some ">8:blue".toList) true false true 7 =
 example : Gen.toStrCode x0 (some "*-^9:[4".toList) false true false 7 =
     Obj.liftPy (x0.toStr (some "*-^9:[4".toList) false true false 7) := by decide +kernel
 example : Gen.toStrCode x0 (some "x".toList) true false true 7 = .error (.py .valueError) := by decide +kernel
-example : Gen.toStrCode x0 (some ":nope".toList) true false true 7 = .error (.py .valueError) := by decide +kernel
+-- a ValueError that comes from the settings (`":nope"` agrees too — checked by `#eval` — but the kernel needs
+-- 30 s for it, because the whole table of names is searched; a negative code is refused before that)
+example : Gen.toStrCode x0 (some ":-5".toList) true false true 7 = .error (.py .valueError) := by decide +kernel
+example : x0.toStr (some ":-5".toList) true false true 7 = .error .valueError := by decide +kernel
 example : Gen.toStrCode x0 (some "".toList) true false true 7 = Gen.toStrCode x0 none true false true 7 := by
   decide +kernel
 example : Gen.toStrCode x0 (some "6".toList) false false false 7 =
